@@ -294,9 +294,13 @@ def run_case(spec):
             # the integrator retried the step (for implicit methods with per-stage Jacobians, so the step sequence may differ):
             # the run must simply be a consistent completed run that agrees with the reference to tolerance
             sysrun.segment_invariants(rec, system, seg, tf, f2, y0_copy=y0c, clock=not info["splitting"], step_tol=0.0 if info["explicit"] else tolu, clause_prefix="retried_")
-            if not np.allclose(y[-1], ref["y"][-1], rtol=200 * tolu, atol=200 * tolu):
-                rec.violate("retried_run_inconsistent", "run_completed_after_swallowed_error_but_differs_from_reference", f2, rows=[n, len(ref["t"])],
-                            err=float(np.max(np.abs(y[-1] - ref["y"][-1]))))
+            # (the retried step may change the step sequence of the non-adaptive implicit methods, whose accuracy is that of their - growing - steps:
+            #  both runs are compared with the exact solution, the retried one may be as wrong as the reference, not more)
+            ref_err_ = float(np.max(np.abs(ref["y"][-1][:2] - np.asarray(base.ystar(float(ref["t"][-1])), dtype=np.float64))))
+            err_ = float(np.max(np.abs(y[-1][:2] - np.asarray(base.ystar(float(t[-1])), dtype=np.float64))))
+            if err_ > 20 * (ref_err_ + 10 * tolu) + 1e-12:
+                rec.violate("retried_run_inconsistent", "run_completed_after_swallowed_error_but_is_less_accurate_than_the_reference", f2, rows=[n, len(ref["t"])],
+                            err=err_, reference_error=ref_err_)
         else:
             if n > len(ref["t"]) or not (np.array_equal(t, ref["t"][:n]) and np.array_equal(y, ref["y"][:n])):
                 rec.violate("prefix", "recorded_rows_are_not_a_prefix_of_the_unfaulted_run", f2, rows=n, ref_rows=len(ref["t"]))
